@@ -13,6 +13,7 @@ import operator
 
 from . import extsig
 from .model import AnalysisError, FuncInfo, ClassInfo, _local_names
+from .terms import walk as _walk
 from .terms import (T, const, cval, is_const, NONE, TRUE, FALSE, sym, ext, strip_negation,
                     unknown, ite, tup, lst, UNBOUND, walk, show)
 
@@ -475,8 +476,32 @@ class Evaluator:
               T('star', (e.args[0] if e.op == 'star' else e), T('loopdom', lid, it, (), (e.args[1] if e.op == 'star' else NONE)))
               for e in bv.args[2].args)))
         else:
-          scope.vars[v] = T('loop', lid, v, init, bv)
+          folded = self._left_fold(lid, v, init, bv, it)
+          scope.vars[v] = folded if folded is not None else T('loop', lid, v, init, bv)
     self.exec_block(s.orelse, scope)
+
+  def _left_fold(self, lid, v, init, bv, it):
+    """acc = xs[0]; for x in xs[1:]: acc = f(acc, x)   is   functools.reduce(f, xs)  (f a library function)"""
+    if bv.op != 'call' or bv.args[0].op != 'ext' or len(bv.args[1]) != 2 or bv.args[2]:
+      return None
+    a, b = bv.args[1]
+    if not (a.op == 'phi' and a.args[0] == lid and a.args[1] == v) or b is not self.elem_of(it):
+      return None
+    if any(y.op == 'phi' and y.args[0] == lid for y in _walk(b)):
+      return None
+    # the iterable is xs[1:] - of an opaque sequence, or of an abstract list (kept as a `sliceof` domain)
+    if it.op == 'sub' and it.args[1].op == 'slice':
+      xs, sl = it.args
+    elif it.op in ('list', 'tuple') and len(it.args) == 1 and it.args[0].op == 'star' and it.args[0].args[1].op == 'sliceof':
+      xs, sl = it.args[0].args[1].args
+    else:
+      return None
+    lo, hi, st = sl.args
+    if not (is_const(lo, 1) and is_const(hi, None) and is_const(st, None)):
+      return None
+    if init is not self.subscript(xs, const(0)):
+      return None
+    return T('reduce', bv.args[0], xs)
 
   def exec_while(self, s, scope):
     lid = self.new_id('W')
@@ -716,7 +741,10 @@ class Evaluator:
       for e in elts:
         if e.op == 'star' and e.args[0].op == 'loopacc':
           continue
-        cands.append(e.args[0] if e.op == 'star' else e)
+        c = e.args[0] if e.op == 'star' else e
+        while c.op == 'star' and e.op == 'star':      # flattened nested comprehension: the element is the innermost one
+          c = c.args[0]
+        cands.append(c)
       if not cands:
         return NOELEM
       uniq = []
@@ -1113,6 +1141,17 @@ class Evaluator:
       return base                     # x[:] of an immutable value is x
     if base.op == 'ext' and base.args[0] in ('numpy.s_', 'numpy.index_exp', 'jax.numpy.s_', 'jax.numpy.index_exp'):
       return idx                      # np.s_[a:b, c] is the index object itself
+    if base.op not in ('tuple', 'list', 'dict', 'const', 'rec'):
+      # x[::-1] is jnp.flip(x); x[:, ::-1] is jnp.flip(x, axis=1) (array values: lists / tuples are handled below)
+      def is_rev(t):
+        return t.op == 'slice' and is_const(t.args[0], None) and is_const(t.args[1], None) and is_const(t.args[2], -1)
+
+      def is_all(t):
+        return t.op == 'slice' and all(is_const(x, None) for x in t.args)
+      if is_rev(idx):
+        return self.call(ext('jax.numpy.flip'), [base], {}, n, None)
+      if idx.op == 'tuple' and idx.args and is_rev(idx.args[-1]) and all(is_all(t) for t in idx.args[:-1]) and len(idx.args) >= 2:
+        return self.call(ext('jax.numpy.flip'), [base], {'axis': const(len(idx.args) - 1)}, n, None)
     if base.op in ('tuple', 'list'):
       has_star = any(a.op == 'star' for a in base.args)
       if is_const(idx) and isinstance(cval(idx), int) and not isinstance(cval(idx), bool) and not has_star:
@@ -1814,6 +1853,28 @@ class Evaluator:
       return self.map_structure(a[0], leaf_fn)
     if dotted == 'typing.cast' and len(a) == 2:
       return a[1]
+    if dotted == 'jax.numpy.split' and a:
+      # jnp.split(x, [k1, .., kn]) along axis 0: the slices x[:k1], x[k1:k2], .., x[kn:]
+      ios = kwargs.get('indices_or_sections', a[1] if len(a) > 1 else None)
+      ax = kwargs.get('axis', a[2] if len(a) > 2 else const(0))
+      if ios is not None and ios.op in ('list', 'tuple') and ios.args and not any(x.op == 'star' for x in ios.args) and is_const(ax, 0) and \
+          set(kwargs) <= {'axis', 'indices_or_sections'}:
+        cuts = [NONE] + list(ios.args) + [NONE]
+        return T('tuple', *[self.subscript(a[0], T('slice', lo, hi, NONE), n) for lo, hi in zip(cuts, cuts[1:])])
+    if dotted == 'itertools.chain.from_iterable' and len(a) == 1 and a[0].op in ('list', 'tuple') and not kwargs:
+      # chain.from_iterable(f(x) for x in X)  ==  [y for x in X for y in f(x)]
+      parts = []
+      for x in a[0].args:
+        if x.op == 'star' and x.args[1].op in ('compdom', 'loopdom'):
+          f, dom = x.args
+          parts.append(T('star', T('star', self.elem_of(f), T('compdom', f)), dom))
+        elif x.op in ('list', 'tuple'):
+          parts.extend(x.args)
+        else:
+          return None
+      return T('list', *parts)
+    if dotted == 'itertools.chain' and a and all(x.op in ('list', 'tuple') for x in a) and not kwargs:
+      return T('list', *[e for x in a for e in x.args])
     if dotted == 'copy.deepcopy' and len(a) == 1:
       return a[0]
     if dotted == 'math.prod' and len(a) == 1 and a[0].op in ('list', 'tuple') and all(is_const(x) for x in a[0].args):
